@@ -7,6 +7,8 @@ mod fam_c;
 mod fam_d;
 mod fam_e;
 mod fam_f;
+mod fam_h;
+mod fam_i;
 mod hist;
 mod json;
 mod oracle_a;
@@ -52,11 +54,13 @@ fn family_props(f: &str) -> &'static [&'static str] {
         "D" => &["C09", "C10", "C14", "C16", "C03"],
         "E" => &["C11", "C01", "C18"],
         "F" => &["C12"],
+        "H" => &["C17"],
+        "I" => &["C16"],
         _ => &[],
     }
 }
 
-fn run_one(family: &str, seed: u64, tiny: bool, focus: &str, base_seed: u64, index: u64) -> Outcome {
+fn run_one(family: &str, seed: u64, tiny: bool, focus: &str, base_seed: u64, index: u64, thorough: bool) -> Outcome {
     match family {
         "A" => fam_a::run(seed, tiny, focus),
         "B" => fam_b::run(seed, tiny, focus),
@@ -64,6 +68,8 @@ fn run_one(family: &str, seed: u64, tiny: bool, focus: &str, base_seed: u64, ind
         "D" => fam_d::run(seed, tiny, focus),
         "E" => fam_e::run(seed, tiny, focus),
         "F" => fam_f::run(base_seed, index, tiny),
+        "H" => fam_h::run(base_seed, index, tiny, thorough),
+        "I" => fam_i::run(index, tiny),
         _ => panic!("unknown family {}", family),
     }
 }
@@ -79,6 +85,7 @@ fn main() {
     let start: u64 = args[3].parse().unwrap();
     let count: u64 = args[4].parse().unwrap();
     let tiny = args[5] == "tiny";
+    let thorough = args[5] == "thorough";
     let focus = args[6].clone();
     let outdir = args[7].clone();
     let budget_ms: u64 = args.get(8).and_then(|x| x.parse().ok()).unwrap_or(u64::MAX);
@@ -99,7 +106,7 @@ fn main() {
         let sseed = mix(mix(seed, family.bytes().fold(7u64, |a, b| a * 131 + b as u64)), i);
         let fam = family.clone();
         let foc = focus.clone();
-        let res = watchdog::supervise(move || run_one(&fam, sseed, tiny, &foc, seed, i));
+        let res = watchdog::supervise(move || run_one(&fam, sseed, tiny, &foc, seed, i, thorough));
         let out = match res {
             Ok(o) => o,
             Err(stuck) => {
